@@ -13,10 +13,10 @@ import (
 	"strings"
 	"unsafe"
 
-	fiatshamir "github.com/consensys/gnark-crypto/fiat-shamir"
-	gchash "github.com/consensys/gnark-crypto/hash"
 	_ "github.com/consensys/gnark-crypto/ecc/bn254/fr/poseidon2"
 	_ "github.com/consensys/gnark-crypto/ecc/grumpkin/fr/mimc"
+	fiatshamir "github.com/consensys/gnark-crypto/fiat-shamir"
+	gchash "github.com/consensys/gnark-crypto/hash"
 	_ "github.com/consensys/gnark-crypto/hash/all"
 
 	"verifh/vlib"
@@ -202,15 +202,17 @@ func dump(t *fiatshamir.Transcript, held map[string][]byte) string {
 
 // ---- one execution: replay a history on a fresh transcript and fresh model ----
 type exec struct {
-	t     *fiatshamir.Transcript
-	m     *model
-	held  map[string][]byte // caller-held slices: "bound", "ret<i>"
-	names []string
-	spec  hashSpec
+	t    *fiatshamir.Transcript
+	m    *model
+	held map[string][]byte // caller-held slices: "bound", "ret<i>"
+	// what the caller expects each held returned challenge to contain (its value at return, then the caller's own edits)
+	heldWant map[string][]byte
+	names    []string
+	spec     hashSpec
 }
 
 func newExec(spec hashSpec, names []string) *exec {
-	e := &exec{t: fiatshamir.NewTranscript(spec.mk(), names...), names: names, spec: spec, held: map[string][]byte{}}
+	e := &exec{t: fiatshamir.NewTranscript(spec.mk(), names...), names: names, spec: spec, held: map[string][]byte{}, heldWant: map[string][]byte{}}
 	e.m = &model{names: names, ch: make([]mchal, len(names)), mk: spec.mk}
 	return e
 }
@@ -225,6 +227,25 @@ func (e *exec) nameOf(i int) string {
 // step applies one op to the real object and the model; returns a non-empty
 // description when they disagree.
 func (e *exec) step(o op) string {
+	if d := e.step1(o); d != "" {
+		return d
+	}
+	// a challenge handed out earlier belongs to the caller: only the caller changes it
+	var hk []string
+	for k := range e.heldWant {
+		hk = append(hk, k)
+	}
+	sort.Strings(hk)
+	for _, k := range hk {
+		want := e.heldWant[k]
+		if !bytes.Equal(e.held[k], want) {
+			return fmt.Sprintf("held challenge %s changed under the caller: %x, was %x when it was returned (or last edited by the caller)", k, e.held[k], want)
+		}
+	}
+	return ""
+}
+
+func (e *exec) step1(o op) string {
 	switch o.kind {
 	case 0:
 		v := append([]byte{}, e.spec.values[o.val]...)
@@ -257,6 +278,7 @@ func (e *exec) step(o op) string {
 			return fmt.Sprintf("challenge %s = %x, model %x", e.nameOf(o.name), got, want)
 		}
 		e.held[fmt.Sprintf("ret%d", o.name)] = got
+		e.heldWant[fmt.Sprintf("ret%d", o.name)] = append([]byte{}, got...)
 	case 2:
 		if b := e.held["bound"]; len(b) > 0 {
 			b[0] ^= 0x80
@@ -266,6 +288,7 @@ func (e *exec) step(o op) string {
 		if b := e.held[fmt.Sprintf("ret%d", o.name)]; len(b) > 0 {
 			b[0] ^= 0x40
 			b[len(b)-1] ^= 0x01
+			e.heldWant[fmt.Sprintf("ret%d", o.name)] = append([]byte{}, b...)
 		}
 	}
 	return ""
@@ -289,6 +312,8 @@ func classify(desc string, h []op) string {
 		cls = "compute-error-mismatch"
 	case strings.HasPrefix(desc, "refused"):
 		cls = "error-not-atomic"
+	case strings.HasPrefix(desc, "held challenge"):
+		cls = "returned-challenge-changed-under-the-caller"
 	case strings.HasPrefix(desc, "panic"):
 		cls = "panic"
 	}
